@@ -112,6 +112,17 @@ Theorem c04_enabled_list_exact : forall (user : option config) (custom : list (s
 Proof. exact bundle_enabled_list_exact. Qed.
 Print Assumptions c04_enabled_list_exact.
 
+Theorem c04_enabled_aggregate_list_exact : forall (user : option config) (custom : list (str * str)) (p : params)
+                                                  (bundled_agg custom_agg : list (str * str)) (t : str),
+  user_wf user = true ->
+  (forall c t', In (c, t') bundled_agg -> In (c, t') bundled_rules) ->
+  let merged := linter_config provided_rules user custom in
+  In t (determine_enabled_aggregate_rules p merged bundled_agg custom_agg) <->
+  (exists c, In (c, t) bundled_agg /\ builtin_can_report p merged c t false false = true) \/
+  (exists c, In (c, t) custom_agg /\ custom_can_report p merged c t false = true).
+Proof. exact bundle_enabled_aggregate_list_exact. Qed.
+Print Assumptions c04_enabled_aggregate_list_exact.
+
 Theorem c04_enabled_list_exact_pinned_refuted :
   exists (custom : list (str * str)) (c t : str),
     let merged := linter_config [] None custom in
